@@ -416,6 +416,8 @@ impl Ctx {
     /// Feed an observation into the transcript of the current leaf.
     #[inline]
     pub fn ob(&mut self, label: &'static str, v: u64) {
+        // the label is part of the transcript: "panic = 1" and "error = 1" must not collide
+        self.tx.str(label);
         self.tx.u64(v);
         if self.opts.verbose && !self.shadow {
             println!("  {} = {:#x}", label, v);
@@ -423,6 +425,7 @@ impl Ctx {
     }
     #[inline]
     pub fn ob_bytes(&mut self, label: &'static str, b: &[u8]) {
+        self.tx.str(label);
         self.tx.bytes(b);
         if self.opts.verbose && !self.shadow {
             println!("  {} = [{}] {}", label, b.len(), crate::json::hex(&b[..b.len().min(64)]));
@@ -430,6 +433,7 @@ impl Ctx {
     }
     #[inline]
     pub fn ob_str(&mut self, label: &'static str, s: &str) {
+        self.tx.str(label);
         self.tx.str(s);
         if self.opts.verbose && !self.shadow {
             println!("  {} = {:?}", label, s);
